@@ -388,6 +388,8 @@ bool write_header(zckCtx *zck)
     ZCK_WARN_UNUSED;
 
 /* comp/comp.c */
+ssize_t comp_end_chunk(zckCtx *zck, bool force)
+    ZCK_WARN_UNUSED;
 bool comp_init(zckCtx *zck)
     ZCK_WARN_UNUSED;
 bool comp_close(zckCtx *zck)
